@@ -7,6 +7,7 @@ Alpha == <<
   Recv_(1, 255, 0, 17, P20), Recv_(2, 255, 0, 18, P22),                     \* node presentations
   Recv_(1, 0, 0, 6, Pa), Recv_(1, 1, 0, 6, Pa), Recv_(2, 0, 0, 6, Pa),      \* child presentations
   Recv_(1, 0, 0, 7, Pb),                                                    \* re-presentation, other type
+  Recv_(1, 1, 0, 99, Pa), Recv_(2, 1, 0, -1, Pb),                            \* sensor types newer / other than any table
   Recv_(1, 0, 1, 0, Pa), Recv_(1, 0, 1, 0, Pb), Recv_(1, 0, 1, 1, Pa), Recv_(1, 1, 1, 0, Pa),
   Recv_(1, 1, 1, 1, Pb), Recv_(2, 0, 1, 0, Pa), Recv_(2, 1, 1, 0, Pa),      \* sets
   Recv_(1, 0, 2, 0, PEmpty), Recv_(1, 1, 2, 1, PEmpty),                     \* reqs
